@@ -147,6 +147,9 @@ func rateCtor(node config.Node, args []string) (func() limiters.L, error) {
 		if err != nil {
 			return nil, config.NodeErr(node, "%v", err)
 		}
+		if burst < 0 {
+			return nil, config.NodeErr(node, "burst size cannot be negative")
+		}
 	case 0:
 		return nil, config.NodeErr(node, "at least burst size is needed")
 	default:
